@@ -253,6 +253,9 @@ def run(ctx):
     for c in crashes[:5]:
         ctx.log("note: check() crashed on corpus program (reported by C02, not C09):", c["name"], c["outcome"]["error"].get("class"))
 
+    # ---- 3. the real CFG builder against spec/CfgBuild.tla ----------------------------------------
+    cb = cfgbuild_part(ctx, progs)
+
     nontriv = sum(1 for g in fam + rgraphs + real_graphs if any(len(s) > 1 for s in g["succ"]) or
                   any(b + 1 in s for b, s in enumerate(g["succ"])) or any(g["dsucc"]))
     ctx.coverage.update({
@@ -270,9 +273,75 @@ def run(ctx):
         "exhaustive": False,
         "model_schedule_dependent_pairs": len(wrong),
         "skipped_partial_runs": skipped_partial,
+        "cfg_builder": cb,
     })
     ctx.assumptions += ["TLC", "hooks in guppylang_internals/_verif.py report the analysis state faithfully",
                         "graphs whose entry has predecessors are outside the quantifier (CFG builder never produces them)"]
+
+
+def cfgbuild_part(ctx, progs):
+    """Every function of the corpus is built by the real CFGBuilder and by the model (spec/CfgBuild.tla, TLC);
+    TLC checks the structural invariants (the scope of C09's quantifier: entry without predecessors, every
+    block reachable from a predecessor-less block, dummy edges only into dead code ...) on BOTH graphs.
+    A real graph violating an invariant is reported; a mere shape difference model/real is counted in evidence
+    (it means the builder model is out of date, not that the property fails)."""
+    import ast
+
+    import cfg2model
+    import sem_gen
+
+    items = []
+    srcs = [(n, s) for n, s in progs] + [(c["id"], c["src"]) for c in sem_gen.programs(ctx.seed, ctx.pick(25, 600), effects=0.3)]
+    skipped = 0
+    for name, src in srcs:
+        try:
+            tree = ast.parse(src)
+        except SyntaxError:
+            continue
+        for fdef in [n for n in tree.body if isinstance(n, ast.FunctionDef)]:
+            try:
+                m = cfg2model.model_program(fdef)
+                rn = fdef.returns is None or (isinstance(fdef.returns, ast.Constant) and fdef.returns.value is None)
+                real = cfg2model.real_cfg(fdef, rn)
+            except cfg2model.Unsupported:
+                skipped += 1
+                continue
+            except Exception:  # nested defs need Globals, rejected programs raise GuppyError: not this part's subject
+                skipped += 1
+                continue
+            m["real"] = real
+            items.append((f"{name}:{fdef.name}", m, ast.unparse(fdef)))
+    if not items:
+        raise lib.Machinery("CfgBuild: no function of the corpus could be built")
+    path = os.path.join(ctx.workdir, "cfgbuild.json")
+    json.dump({"progs": [m for _, m, _ in items]}, open(path, "w"))
+    r = ctx.tlc("CfgBuild", env={"VERIF_IN": path}, timeout=3000)
+    if not r.ok:
+        raise lib.Machinery("CfgBuild: the model violates its own structural invariants or TLC failed:\n" + r.error)
+    model = {p["prog"]: p for p in r.printed if "prog" in p}
+    realv = {p["real"]: p["holds"] for p in r.printed if "real" in p}
+    same = diff = 0
+    examples = []
+    for i, (name, m, src) in enumerate(items):
+        g, real = model.get(i + 1), m["real"]
+        if g is None or (i + 1) not in realv:
+            raise lib.Machinery(f"CfgBuild: no verdict for {name}")
+        if (g["n"] == real["n"] and [list(x) for x in g["succ"]] == real["succ"]
+                and [list(x) for x in g["dsucc"]] == real["dsucc"] and list(g["reach"]) == real["reach"]):
+            same += 1
+        else:
+            diff += 1
+            if len(examples) < 2:
+                examples.append({"function": name, "model": g, "real": real})
+        for inv, ok in realv[i + 1].items():
+            if not ok:
+                ctx.violation(f"cfg-shape:{inv}", f"the CFG the real builder produced for `{name}` violates {inv}: the dataflow analyses' "
+                              f"path semantics (and the scope of this check) assume it. graph={json.dumps(real)}\n{src}",
+                              {"graph": real, "src": src})
+    if diff:
+        ctx.log(f"note: {diff} of {len(items)} real CFGs differ in shape from the CfgBuild model (model out of date?)")
+    return {"functions_built": len(items), "shape_equal_to_model": same, "shape_differs": diff,
+            "difference_examples": examples, "skipped": skipped}
 
 
 def replay(ctx, data):
